@@ -47,13 +47,18 @@ func (x *XML2sdcpbConfigAdapter) Transform(ctx context.Context, doc *etree.Docum
 		return nil, nil
 	}
 
+	// leaf-lists directly below the root collect their entries here
+	rootTc := NewTransformationContext([]*sdcpb.PathElem{})
 	for _, e := range doc.Root().ChildElements() {
 		r := &sdcpb.Notification{}
-		err := x.transformRecursive(ctx, e, []*sdcpb.PathElem{}, r, nil)
+		err := x.transformRecursive(ctx, e, []*sdcpb.PathElem{}, r, rootTc)
 		if err != nil {
 			return nil, err
 		}
 		result = append(result, r)
+	}
+	if leafListUpdates := rootTc.Close(); len(leafListUpdates) > 0 {
+		result = append(result, &sdcpb.Notification{Update: leafListUpdates})
 	}
 
 	return result, nil
